@@ -427,20 +427,22 @@ fn run_e(case: &ECase) -> String {
         .map(|t| t.bytes.len())
         .min()
         .unwrap_or(0);
-    let main_times: Vec<u64> = tap
-        .iter()
-        .filter(|t| t.src == A && t.bytes.len() == main_len)
-        .map(|t| t.t_us)
-        .collect();
-    let marks = marks.borrow();
-    let mut per_msg = Vec::new();
-    for w in marks.windows(2) {
-        let v: Vec<String> = main_times[w[0].min(main_times.len())..w[1].min(main_times.len())]
-            .iter()
-            .map(|t| t.to_string())
-            .collect();
-        per_msg.push(v.join(","));
+    // grouped by message counter (bytes 4..8 of the datagram): retransmissions carry the counter of
+    // the original, and a copy still inside a slow link when the send returns stays with its message
+    let mut ctrs: Vec<u32> = Vec::new();
+    let mut per_ctr: Vec<Vec<String>> = Vec::new();
+    for t in tap.iter().filter(|t| t.src == A && t.bytes.len() == main_len && t.bytes.len() >= 8) {
+        let c = u32::from_le_bytes([t.bytes[4], t.bytes[5], t.bytes[6], t.bytes[7]]);
+        match ctrs.iter().position(|x| *x == c) {
+            Some(i) => per_ctr[i].push(t.t_us.to_string()),
+            None => {
+                ctrs.push(c);
+                per_ctr.push(vec![t.t_us.to_string()]);
+            }
+        }
     }
+    let _ = &marks;
+    let per_msg: Vec<String> = per_ctr.iter().map(|v| v.join(",")).collect();
     let ba_count = tap.iter().filter(|t| t.src == B).count();
     let copies = net
         .delivered()
